@@ -20,9 +20,12 @@ static void *c15_memcpy(void *d, const void *s, size_t n)
   size_t i;
   __CPROVER_assert(__CPROVER_w_ok(d, n), "VP:pfc_memcpy_destination_in_bounds");
   __CPROVER_assert(__CPROVER_r_ok(s, n), "VP:pfc_memcpy_source_in_bounds");
+  /* w_ok only knows the enclosing object: pin the destination to the member block[2048] explicitly */
+  __CPROVER_assert(__CPROVER_same_object(d, c15_blk) && (uint8_t *) d >= c15_blk
+		   && (size_t) ((uint8_t *) d - c15_blk) <= 2048 && n <= 2048 - (size_t) ((uint8_t *) d - c15_blk),
+		   "VP:pfc_memcpy_inside_block_member");
   if (PFC_MEMCPY_PREFIX) {
     size_t off = (size_t) ((uint8_t *) d - c15_blk);
-    __CPROVER_assert(__CPROVER_same_object(d, c15_blk), "VP:pfc_memcpy_into_block_buffer");
     for (i = 0; i < PFC_MEMCPY_PREFIX; i++)
       if (off <= i && i - off < n) c15_blk[i] = ((const uint8_t *) s)[i - off];
   } else for (i = 0; i < n; i++) ((uint8_t *) d)[i] = ((const uint8_t *) s)[i];
@@ -238,6 +241,9 @@ V_HARNESS(h_pfc_seq)
   const vbi_pgno pgno = (vbi_pgno) ((((MAG) ? (MAG) : 8) << 8) | (PG));
   uint8_t pkt[42], unrel[42];
   V_INIT();
+#ifdef VERIF_CBMC
+  c15_blk = PX.block.block;
+#endif
   r = _vbi_pfc_demux_init(&PX, pgno, STREAM, pfc_seq_cb, &pcb_n);
   V_ASSERT(r && pfc_inv(&PX), "pfc_init_invariant");
   for (b = 0; b < NB; b++) { b_app[b] = (APP0 + 7 * b) & 31; in_bytes(b_data[b], SZMAX); }
@@ -304,6 +310,8 @@ V_HARNESS(h_pfc_seq)
     V_ASSERT(pcb_log[i].pgno == pgno && pcb_log[i].stream == STREAM, "pfc_block_source");
     for (k = 0; k < SZMAX; k++) if (k < b_size[b]) V_ASSERT(pcb_log[i].d[k] == b_data[b][k], "pfc_block_bytes");
   }
+  /* frame: what the demux has no business to change */
+  V_ASSERT(PX.block.pgno == pgno && PX.block.stream == STREAM && PX.callback == pfc_seq_cb && PX.user_data == (void *) &pcb_n, "pfc_seq_frame");
   if (exp_n >= 1) V_REACH("some");
   V_END();
 }
